@@ -617,9 +617,13 @@ pub fn sweep(ctx: &Ctx, r: &Recipe, counting: bool) -> PResult {
 				if let Err(f) = r {
 					let before = if n >= 2 { labels[n - 2].as_str() } else { "start" };
 					let at = labels[n - 1].as_str();
-					// window = the file group most recently touched at or before the crash point
-					let window = labels[..n].iter().rev().find_map(|l| file_group(l)).unwrap_or("before-any-file");
-					let sig = format!("{}|crash-while-persisting:{}|{}", prep.scenario.kind, window, f.sig);
+					// a finding is identified by the scenario kind, the durable step the process died at, the
+					// last durable step completed on ANOTHER file (or none) before it — together they say which
+					// files are already in their new state and which are not — and the failure class
+					let file_of = |l: &str| l.rsplit(':').next().filter(|x| x.contains('/')).unwrap_or("").to_string();
+					let at_file = file_of(at);
+					let prev_other = labels[..n - 1].iter().rev().find(|l| file_of(l) != at_file).map(|l| l.as_str()).unwrap_or("start");
+					let sig = format!("{}|{}|after:{}|{}", prep.scenario.kind, at, prev_other, f.sig);
 					fails.lock().unwrap().push((n, Fail::new(sig, format!("crash at point {} of {} ('{}'), last completed '{}': {}", n, n_points, at, before, f.msg))));
 				}
 			});
